@@ -8,7 +8,8 @@
     [C12_status_readable] below. *)
 From Coq Require Import List Arith Bool NArith Permutation.
 From MWF Require Import Base.Util Base.Str Status.Csv Status.CsvProofs Status.Rows Status.RowsProofs
-  Status.Lock Status.LockProofs Status.AtomicTable Status.LockCase Status.Consist.
+  Status.Lock Status.LockProofs Status.AtomicTable Status.LockCase Status.Consist
+  Gen.StatusData Status.TData.
 From MWF Require Exec.ExecBase Exec.ExecRun Status.ExecJobs.
 Import ListNotations.
 
@@ -96,6 +97,14 @@ Theorem C12_H12_iff_no_signature : forall header rows,
   H12 header rows = negb (sig_comma header rows || sig_newline header rows).
 Proof. exact H12_iff_no_signature. Qed.
 Print Assumptions C12_H12_iff_no_signature.
+
+(** T-data: the header literal, the cell / line / parameter separators, the
+    row width, the reader's split / strip arguments and the two open modes, as
+    REGENERATED from /repo's source on every run, are the ones the models above
+    and below are about. *)
+Theorem C12_tdata : tdata_ok = true.
+Proof. exact tdata_matches_models. Qed.
+Print Assumptions C12_tdata.
 
 (* ------------------------------------------------------------------------- *)
 (** * consistent: what a row shows                                             *)
